@@ -4,7 +4,7 @@
 def _(self, img_left, img_right, disp):
     # columns x of the left image whose correspondent x + disp can be sampled in the (possibly 1/subpix-shifted) right
     # image: k = floor(disp); the shifted image (one column fewer) holds at column c the sample of abscissa c + frac(disp).
-    types(img_left={"sizes": {"col": "int"}}, img_right={"sizes": {"col": "int"}}, disp="float")
+    types(img_left={"sizes": {"col": "int"}}, img_right={"sizes": {"col": "int"}}, disp="float", result=[["int", "int"], ["int", "int"]])
     requires("sizes", img_left.sizes["col"] >= 1, img_right.sizes["col"] >= 0, isfinite(disp))
     requires("shifted_image", (disp == floor(disp) and img_right.sizes["col"] == img_left.sizes["col"])
              or (disp != floor(disp) and img_right.sizes["col"] == img_left.sizes["col"] - 1))
@@ -98,3 +98,82 @@ def _(self, point_p, point_q, img_left, img_right):
         eq(result[y, i], (img_left["im"].data[y, point_p[0] + i] - img_right["im"].data[y, point_q[0] + i])
            * (img_left["im"].data[y, point_p[0] + i] - img_right["im"].data[y, point_q[0] + i]))
         for y in range(img_left["im"].data.shape[0]) for i in range(point_p[1] - point_p[0])))
+
+
+# -------------------------------------------------------------------------- the whole sad / ssd chain, pixel precision (C02)
+@assumed("pandora.matching_cost.matching_cost.AbstractMatchingCost.check_band_input_mc")
+def _(self, img_left, img_right):
+    # with no band selected and monoband datasets the band check returns without effect (its try/except AttributeError probes of a
+    # missing `band_im` coordinate are not modelled); multiband inputs are covered by the bounded stand-in
+    types(img_left="opaque", img_right="opaque")
+
+
+@spec
+def pix(left, right, method, off, cc, rr, d) -> "float":
+    # the pixel-wise cost stored at cell (cc, rr) of the ENLARGED (col, row) plane of disparity d: the absolute (sad) / squared (ssd)
+    # difference between left pixel (rr-off, cc-off) and right pixel (rr-off, cc-off+d); NaN outside the image (the enlarged frame of
+    # width off) and where the right pixel does not exist
+    return ((abs(left[rr - off, cc - off] - right[rr - off, cc - off + d]) if method == "sad"
+             else (left[rr - off, cc - off] - right[rr - off, cc - off + d]) * (left[rr - off, cc - off] - right[rr - off, cc - off + d]))
+            if (off <= cc and cc < off + left.shape[1] and off <= rr and rr < off + left.shape[0]
+                and 0 <= cc - off + d and cc - off + d < right.shape[1]) else np.nan)
+
+
+@contract("pandora.matching_cost.sad_ssd.SadSsd.compute_cost_volume", props=["C02"])
+def _(self, img_left, img_right, cost_volume):
+    types(self={"@attrs": {"_subpix": "int", "_band": "none", "_method": "str", "_window_size": "int"}},
+          img_left={"vars": {"im": "f32[:,:]"}, "coords": {"col": "i64[:]"}, "sizes": {"row": "im.0", "col": "im.1"}},
+          img_right={"vars": {"im": "f32[:,:]"}, "sizes": {"row": "im.0", "col": "im.1"}},
+          cost_volume={"vars": {"cost_volume": "f32[:,:,:]"}, "coords": {"disp": "f64[:]"},
+                       "attrs": {"offset_row_col": "int", "col_to_compute": "i64[:]", "type_measure": "str", "cmax": "int"}})
+    attr_cases(_method=["sad", "ssd"])
+    requires("pixel_precision", self._subpix == 1)
+    requires("images", img_left["im"].data.shape[0] == img_right["im"].data.shape[0], img_left["im"].data.shape[1] == img_right["im"].data.shape[1],
+             img_left["im"].data.shape[0] >= 1, img_left["im"].data.shape[1] >= 1,
+             img_left.coords["col"].data.shape[0] == img_left["im"].data.shape[1])
+    requires("window", cost_volume.attrs["offset_row_col"] >= 0, self._window_size == 2 * cost_volume.attrs["offset_row_col"] + 1,
+             img_left["im"].data.shape[0] >= self._window_size, img_left["im"].data.shape[1] >= self._window_size)
+    # samples are finite (no-data samples were replaced by -9999 when the datasets were built, C16)
+    requires("finite_samples", all(isfinite(img_left["im"].data[r, c]) and isfinite(img_right["im"].data[r, c])
+                                   for r in range(img_left["im"].data.shape[0]) for c in range(img_left["im"].data.shape[1])))
+    # every column is computed (step 1): col_to_compute lists the column coordinates
+    requires("all_columns", cost_volume.attrs["col_to_compute"].shape[0] == img_left["im"].data.shape[1],
+             all(cost_volume.attrs["col_to_compute"][c] == img_left.coords["col"].data[0] + c for c in range(img_left["im"].data.shape[1])))
+    # integer disparities (pixel precision)
+    requires("disparities", cost_volume.coords["disp"].data.shape[0] >= 1,
+             all(isfinite(cost_volume.coords["disp"].data[k]) and cost_volume.coords["disp"].data[k] == floor(cost_volume.coords["disp"].data[k])
+                 for k in range(cost_volume.coords["disp"].data.shape[0])))
+    assigns(cost_volume)
+    raises_never()
+    option(lazy_slices=True, no_fuzz=True, budget=4)
+    ensures("type_measure", result.attrs["type_measure"] == "min")
+    ensures("shape", result["cost_volume"].data.shape[0] == img_left["im"].data.shape[0]
+            and result["cost_volume"].data.shape[1] == img_left["im"].data.shape[1]
+            and result["cost_volume"].data.shape[2] == cost_volume.coords["disp"].data.shape[0])
+    # C02, sad / ssd at pixel precision: the cost of pixel (y, x) at disparity d_k is np.sum over the window_size x window_size window
+    # centred on the pixel of the pixel-wise absolute / squared differences between left pixel (r, c) and right pixel (r, c + d_k)
+    # -- `pix` above, laid out as the implementation's enlarged (disparity, col, row) volume: cell (k, c + off, r + off)
+    ensures("cost_is_the_window_sum_of_pixel_costs", all(
+        eq(result["cost_volume"].data[y, x, k],
+           np.sum(array_of(lambda kk, cc, rr: pix(img_left["im"].data, img_right["im"].data, self._method, cost_volume.attrs["offset_row_col"], cc, rr,
+                                                   int(cost_volume.coords["disp"].data[kk])),
+                           cost_volume.coords["disp"].data.shape[0], img_left["im"].data.shape[1] + 2 * cost_volume.attrs["offset_row_col"],
+                           img_left["im"].data.shape[0] + 2 * cost_volume.attrs["offset_row_col"])
+                  [k, x: x + self._window_size, y: y + self._window_size]))
+        for y in range(cost_volume.attrs["offset_row_col"], img_left["im"].data.shape[0] - cost_volume.attrs["offset_row_col"])
+        for x in range(cost_volume.attrs["offset_row_col"], img_left["im"].data.shape[1] - cost_volume.attrs["offset_row_col"])
+        for k in range(cost_volume.coords["disp"].data.shape[0])))
+    # not computable where the window leaves the left image
+    ensures("nan_on_the_border", all(
+        isnan(result["cost_volume"].data[y, x, k])
+        for y in range(img_left["im"].data.shape[0]) for x in range(img_left["im"].data.shape[1]) for k in range(cost_volume.coords["disp"].data.shape[0])
+        if y < cost_volume.attrs["offset_row_col"] or y >= img_left["im"].data.shape[0] - cost_volume.attrs["offset_row_col"]
+        or x < cost_volume.attrs["offset_row_col"] or x >= img_left["im"].data.shape[1] - cost_volume.attrs["offset_row_col"]))
+    invariant(1,
+              all(eq(cv_enlarge[k, cc, rr], pix(img_left["im"].data, img_right["im"].data, self._method, offset_row_col, cc, rr,
+                                                 int(disparity_range[k])))
+                  for k in range(disp_index) for cc in range(img_left["im"].data.shape[1] + 2 * offset_row_col)
+                  for rr in range(img_left["im"].data.shape[0] + 2 * offset_row_col)),
+              all(isnan(cv_enlarge[k, cc, rr])
+                  for k in range(disp_index, disparity_range.shape[0]) for cc in range(img_left["im"].data.shape[1] + 2 * offset_row_col)
+                  for rr in range(img_left["im"].data.shape[0] + 2 * offset_row_col)))
